@@ -38,7 +38,9 @@ func (g *c11Gen) factArg() string {
 		// open lists whose tail occurs again elsewhere in the fact: copies must keep the sharing
 		"[a,b|A]", "[1,2,3|B]", "A", "[x,y|X]-X",
 		// proper lists that are prefixes of one another (setof/3 has to order them: shorter first)
-		"[1]", "[1,2,3]", "[1,2,3,4]", "[1,2,3,4,5,6]", "[a]", "[a,b,c,d]", "[[1],[1,2,3]]", "[1,2]", "[1,2,3,4,5,6]", "[1]")
+		"[1]", "[1,2,3]", "[1,2,3,4]", "[1,2,3,4,5,6]", "[a]", "[a,b,c,d]", "[[1],[1,2,3]]", "[1,2]", "[1,2,3,4,5,6]", "[1]",
+		// different ground terms that are written alike without quotes (witnesses must be compared as terms)
+		"'1'", "'2'", "'f(a)'", "'p-1'", "'[1,2]'", "'1'", "'g(_,_)'")
 }
 
 func (g *c11Gen) facts() string {
@@ -61,6 +63,8 @@ func (g *c11Gen) facts() string {
 		}
 	}
 	sb.WriteString("boom(X) :- X == 3, throw(three).\nboom(_).\n")
+	// two lists built by append/3 on the very same front list (the copies made per solution must keep them apart)
+	sb.WriteString("front([a,b]).\nfront([1]).\ntwo(Z1, Z2) :- front(L), append(L, [c], Z1), append(L, [d], Z2).\ntwo(Z1, Z2) :- front(L), append(L, T, Z1), append(L, [e|T], Z2).\n")
 	return sb.String()
 }
 
@@ -69,6 +73,9 @@ var c11Vars = []string{"X", "Y", "Z", "W"}
 func (g *c11Gen) v() string { return c11Vars[g.r.Intn(len(c11Vars))] }
 
 func (g *c11Gen) simpleGoal() string {
+	if g.r.Intn(12) == 0 {
+		return fmt.Sprintf("two(%s, %s)", g.v(), g.v())
+	}
 	switch g.r.Intn(8) {
 	case 0, 1, 2:
 		return fmt.Sprintf("r(%s, %s)", g.v(), g.v())
